@@ -40,11 +40,16 @@
                          start() hands the buffered tail back to the parser           [ideal]
                       = FALSE nobody switches the parser back: later requests are buffered in
                          _message_tail for ever                                        [as coded]
+     GuardHXOutput = TRUE  a handler that raises an HTTPException after it has started a response:
+                         like handle_error(), no second response is written; the connection
+                         is closed                                                    [ideal]
+                   = FALSE the HTTPException's response is written behind the started one and
+                         the connection kept alive                                    [as coded]
      ResumeOnPop = FALSE is a spec-level mutant (queue never resumed) used by the self-test *)
 EXTENDS Integers, Sequences, FiniteSets, TLC
 
 CONSTANTS Alphabet, MaxItems, Cap, ResumeAt, HW, Behaviours, Timers, MaxDisc, MaxWPause,
-          MapPoisonP, GuardFactory, PoisonFAtParser, LateUpgradeReset, ResumeOnPop, KA, LG
+          MapPoisonP, GuardFactory, PoisonFAtParser, LateUpgradeReset, GuardHXOutput, ResumeOnPop, KA, LG
 
 VARIABLES items, c, wire
 
@@ -79,7 +84,7 @@ Conn0 ==
      hid |-> 0, hbeh |-> "none", hpc |-> "none", hres |-> "none", hka |-> FALSE, hst |-> 0,
      hopen |-> FALSE, eager |-> FALSE, goPending |-> FALSE,
      ready |-> <<>>, iter |-> 0, cpu |-> "idle", now |-> 0,
-     escaped |-> "no", sawBad |-> FALSE, lateUp |-> FALSE,
+     escaped |-> "no", sawBad |-> FALSE, lateUp |-> FALSE, hxDev |-> FALSE,
      wOpen |-> 0, wIsOpen |-> FALSE, wLast |-> 0, wErr |-> FALSE, wireBad |-> FALSE,
      out |-> <<>>, sc |-> FALSE, raised |-> "no", wq |-> <<>>, exc |-> FALSE,
      hb |-> [i \in Ids |-> "none"]]
@@ -401,6 +406,16 @@ Finish(s, st, ka) ==       \* finish_response(): declined-upgrade tail, prepare 
              r == [w EXCEPT !.hres = "ok", !.hka = ka, !.hst = st]
          IN IF r.wPaused THEN SuspendHandler(r, "drain") ELSE [r EXCEPT !.cpu = "h_done"]
 
+\* finish_response() whose body source raises a ConnectionError midway through write_eof(): the header
+\* block and the first chunk are on the wire; `except ConnectionError: return resp, True` -> start() closes
+FinishFail(s) ==
+    LET id == s.cur
+        d0 == DeclineUpgrade(s)
+        t0 == IF d0.exc THEN [d0 EXCEPT !.hres = "unhandled", !.exc = FALSE] ELSE d0
+    IN IF t0.hres = "unhandled" THEN [t0 EXCEPT !.cpu = "h_done"]
+       ELSE IF ~Writable(t0) THEN [t0 EXCEPT !.hres = "reset", !.cpu = "h_done"]
+       ELSE [WB(WS(t0, id, 200), id) EXCEPT !.hres = "reset", !.cpu = "h_done"]
+
 ReqKeepAlive(s) == s.cur > 0 /\ ~s.curErr /\ items[s.cur].ka = "keep"
 
 HError(s, st) ==          \* handle_error(): 500 / 504, resp.force_close()
@@ -429,11 +444,18 @@ HEnter(b) ==
             [] b = "exc" -> HError(s, 500)
             [] b = "timeout" -> HError(s, 504)
             [] b = "never" -> SuspendHandler(s, "never")
-            [] b \in {"stream", "partial"} ->
+            [] b \in {"stream", "partial", "partialto", "partialhx"} ->
+                 \* prepare() + write(): the response has started; then the handler fails with
+                 \* Exception / TimeoutError / HTTPException.  handle_error() refuses to write a second
+                 \* response ("Response is sent already" -> ConnectionError -> start() closes)
                  IF ~Writable(s) THEN [s EXCEPT !.hres = "connerr", !.cpu = "h_done"]
                  ELSE LET w == WB(WS(s, id, 200), id) IN
-                      IF b = "partial" THEN [w EXCEPT !.hres = "connerr", !.cpu = "h_done"]
+                      IF b \in {"partial", "partialto"} \/ (b = "partialhx" /\ GuardHXOutput)
+                      THEN [w EXCEPT !.hres = "connerr", !.cpu = "h_done"]
+                      ELSE IF b = "partialhx"       \* as coded: except HTTPException has no such guard
+                      THEN Finish([w EXCEPT !.hxDev = TRUE, !.hbeh = "partialhx"], 403, ReqKeepAlive(w))
                       ELSE SuspendHandler(w, "sgate")
+            [] b = "bodyfail" -> FinishFail(s)
             [] OTHER -> Finish(s, 200, ReqKeepAlive(s)))
 
 HRun ==      \* the handler task is woken
@@ -529,6 +551,7 @@ NoOrphan ==
 
 \* the code as it is: start() may have died on a hostile request-target (named deviation)
 Deviating == c.spc = "dead" \/ c.lateUp
+InOrderOnceAsCoded == c.hxDev \/ InOrderOnce
 NoOrphanAsCoded == Deviating \/ NoOrphan
 NoLateUpgrade == ~(c.lateUp /\ c.cpu = "idle" /\ c.ready = <<>> /\ c.hid = 0 /\ ~c.tClosing /\ c.dpos > c.ppos)
 
